@@ -259,6 +259,12 @@ def run(ck: Check):
         b = lits.get(c)
         if b is None:
             r = nat.call('iso', c.encode().hex())
+            if r.get('ok') == c:
+                # the real function does resolve the code, by some means other than comparing the whole string: the
+                # opaque-string abstraction cannot decide such a lookup
+                ck.inconclusive.append('iso %s: resolved natively but never compared as a whole string (lookup not expressible '
+                                       'on an opaque code)' % c)
+                continue
             ck.violations.append(Violation('iso:%s' % c, {'kind': 'iso', 'code': c},
                                            'get_interpreter_for(%r) cannot return %s: the code is not compared at all; native: %r'
                                            % (c, vname, r.get('ok')), {'code': c, 'native': r}))
